@@ -5,6 +5,13 @@ Units: `md.words`, `md.fill`, `md.prefix`, `md.budget` — the real classmethods
 MarkdownRenderer.make_words / fragments_to_lines / prefix_lines and the child-budget expressions of
 render_quote / render_list_item against the Lean model (Model/Wrap.lean), on generated fragment lists,
 all L in 1..120 plus None/0/negative.
+Theorems: Props/C10.lean (the fill loop on arbitrary fragment lists: bound, order and content of words, budgets) and
+Props/C10_Reflow.lean (lemmas in Proofs/Reflow.lean): for documents of plain-word prose paragraphs the clauses are carried
+through Document(text) and MarkdownRenderer(max_line_length=L).render - the output is the greedy re-fill of the same words,
+long lines have no breakable space, the HTML is the same up to the position of soft breaks, reflowing again changes nothing.
+Unit `c10.theorem`: random plain-word documents and L go to the second driver (op c10.reflow), which evaluates the hypothesis
+and the text the theorem concludes; wherever it holds the REAL renderer must return exactly that text, and the real
+HtmlRenderer output of both texts must agree once "\n" is replaced by a space.
 Exploration on the implementation: the four clauses of the property on generated prose documents
 nested in quotes and lists, for L in 1..120.
 """
@@ -16,6 +23,7 @@ import impl
 from common import driver_batch
 
 ID = 'C10'
+EXTRA_MODULES = ['Mistletoe.Proofs.Reflow', 'propsdriver']
 RULE = ('fragment lists (word-wrappable text with all kinds of whitespace, glued fragments, hard breaks) x L in '
         '{None, 0, -3..120}; generated prose documents (plain words that cannot be mistaken for block markers; emphasis, '
         'strong, code spans with inner spaces, links with titles, images, hard breaks, link definitions, headings, code '
@@ -24,8 +32,10 @@ RULE = ('fragment lists (word-wrappable text with all kinds of whitespace, glued
 TRUSTED = ['container prefixes of output lines are recognised by a regular expression over the generator\'s own vocabulary']
 ASSUMPTIONS = ['prose words cannot be mistaken for block markers at the start of a line (the complementary class is the '
                'recorded finding named by the property)']
-PARTIAL = ['meaning preservation, idempotence of the round trip and non-rebreaking of code/HTML/table/ATX blocks involve the '
-           'parser and the whole Markdown renderer: explored on the implementation, not yet Lean theorems']
+PARTIAL = ['meaning preservation, idempotence and the line bound on PARSED documents are proved for the plain-word prose fragment '
+           '(paragraphs of words without inline markup, not inside containers; Props/C10_Reflow.lean); paragraphs inside quotes '
+           'and lists (prefix budgets are proved separately: C10_budget, C10_wrapping_stays_on), hard breaks, inline markup, and '
+           'the non-rebreaking of code/HTML/table/ATX blocks are explored on the implementation']
 
 WORDS = ['alpha', 'beta', 'gamma', 'delta', 'words', 'wrap', 'here', 'is', 'a', 'an', 'of', 'line', 'text', 'longerword',
          'x', 'Quite', 'End', 'averyveryverylongwordthatdoesnotfit', 'é', 'naïve', 'two', 'three']
@@ -257,6 +267,39 @@ def units(ctx):
     model = driver_batch(reqs)
     for (unit, case), e, m in zip(meta, exp, model):
         ctx.compare(unit, case, m, e)
+    theorem_unit(ctx)
+
+
+TH_WORDS = WORDS + ['a.b', 'x1', 'q?', '(see', 'p.3)', 'isn\'t', 'k=v', '"quoted"', 'semi;colon', 'é', '日本', 'A', 'co-op', 'end.',
+                    '1st', '-dash', '#tag', '*star', '_u', '>gt', '+plus', '[br', 'a*b', 'a_b', 'AT&T', 'x<y', '`tick', '~tilde', '|bar', ':colon']
+
+
+def theorem_unit(ctx):
+    rng = ctx.rng('theorem')
+    reqs = []
+    for _ in range(ctx.budget(1500, 15000)):
+        vocab = TH_WORDS if rng.random() < 0.25 else TH_WORDS[:len(WORDS) + 14]      # a quarter of the documents may contain words outside the fragment
+        paras = [[[rng.choice(vocab) for _ in range(rng.randint(1, 7))] for _ in range(rng.randint(1, 4))]
+                 for _ in range(rng.randint(1, 3))]
+        reqs.append({'op': 'c10.reflow', 'paras': paras, 'L': rng.choice([1, 2, 3, 5, 8, 10] + list(range(1, 81)))})
+    res = common.driver_batch(reqs, binary=common.PROPS_DRIVER)
+    n_ok = 0
+    for i, (q, r) in enumerate(zip(reqs, res)):
+        if not (isinstance(r, dict) and r.get('ok')):
+            continue
+        n_ok += 1
+        L, nw = q['L'], bool(i % 2)
+        try:
+            out = impl.parse_render('MarkdownRenderer', {'max_line_length': L, 'normalize_whitespace': nw}, r['text'])[1]
+            again = impl.parse_render('MarkdownRenderer', {'max_line_length': L, 'normalize_whitespace': nw}, out)[1]
+            h0 = impl.parse_render('HtmlRenderer', {}, r['text'])[1]
+            h1 = impl.parse_render('HtmlRenderer', {}, out)[1]
+            real = {'md': out, 'idempotent': again == out, 'same_html_up_to_breaks': h0.replace('\n', ' ') == h1.replace('\n', ' ')}
+        except Exception as e:
+            real = {'raises': type(e).__name__}
+        ctx.compare('c10.theorem', {'text': r['text'], 'L': L, 'normalize_whitespace': nw},
+                    {'md': r['expected'], 'idempotent': True, 'same_html_up_to_breaks': True}, real, kind='L<=10' if L <= 10 else 'L>10')
+    ctx.notes.append('of %d generated plain-word documents %d satisfy the hypothesis of C10_prose_reflow_markdown_partial' % (len(reqs), n_ok))
 
 
 def _docs(ctx):
